@@ -1,17 +1,17 @@
 SPECIFICATION Spec
 CONSTANTS MultipliedEndForNominal <- Off
           StrictBounds <- Off
-          FirstAfterIgnoresEnd <- On
+          FirstAfterIgnoresEnd <- Off
           MaxTake = 6
           ShiftMovesStoredPoints <- Off
-          Shifts <- NoShifts
+          Shifts <- OneShift
           Intervals <- ExactOnly
-          Fmts <- F13
-          Ns <- NsBounded
+          Fmts <- F134
+          Ns <- NsAll
 INVARIANT Increasing
 INVARIANT CountAndAnchor
 INVARIANT NoEarlyStop
 INVARIANT FirstIsAnchor
 INVARIANT Bounded
-INVARIANT FirstAfterAgrees
+INVARIANT ShiftOK
 CHECK_DEADLOCK FALSE
